@@ -9,6 +9,13 @@
 //! (b) The real `CertAuth` (ROA deltas with globally unique prefixes,
 //!     rejects, no-ops, concurrent readers) and the publication server's
 //!     write-ahead log (concurrent publishers) through the managers.
+//! (c) Directed pre-emption (one context switch per run): a background
+//!     task of the real scheduler code (the daily snapshot job, an RRDP
+//!     update) is parked at its k-th yield point, for every k, while a
+//!     complete API command + repository synchronisation runs on another
+//!     thread; afterwards the running instance and an instance opened
+//!     afresh on the same directory must show the same configuration and
+//!     published content, with the acknowledged change in it exactly once.
 
 use std::collections::{BTreeMap, BTreeSet};
 use std::fmt;
@@ -176,9 +183,37 @@ thread_local! {
     static TL_ID: std::cell::Cell<u64> = const { std::cell::Cell::new(0) };
 }
 
+/// Directed mode: the thread with id `victim` is parked when it passes its
+/// `target`-th yield point and stays there until released.
+struct Directed { victim: u64, target: u64, count: u64, parked: bool,
+                  released: bool, site: &'static str }
+static DIRECTED: Mutex<Option<Directed>> = Mutex::new(None);
+static DIRECTED_CV: std::sync::Condvar = std::sync::Condvar::new();
+
+fn directed_point(tid: u64, site: &'static str) -> bool {
+    let mut g = match DIRECTED.lock() { Ok(g) => g, Err(_) => return false };
+    let Some(d) = g.as_mut() else { return false };
+    if d.victim != tid { return true } // directed mode: no random delays
+    d.count += 1;
+    if d.count != d.target { return true }
+    d.parked = true;
+    d.site = site;
+    DIRECTED_CV.notify_all();
+    let deadline = std::time::Instant::now() + std::time::Duration::from_secs(20);
+    loop {
+        let released = g.as_ref().map(|d| d.released).unwrap_or(true);
+        if released || std::time::Instant::now() > deadline { break }
+        let (g2, _) = DIRECTED_CV.wait_timeout(
+            g, std::time::Duration::from_millis(100)).unwrap();
+        g = g2;
+    }
+    true
+}
+
 fn install_yield_hook() {
     krill::verif::set_yield_hook(Some(Arc::new(|site: &'static str| {
         let tid = TL_ID.with(|t| t.get());
+        if directed_point(tid, site) { return }
         if site == "agg.before_process_command"
             || site == "wal.before_process_command"
         {
@@ -733,6 +768,224 @@ fn real_history(
     None
 }
 
+//============ directed pre-emption ===========================================
+
+fn views(w: &World) -> (BTreeMap<String, BTreeSet<String>>, BTreeMap<String, u64>) {
+    let mut roas = BTreeMap::new();
+    for ca in ["a", "b"] {
+        roas.insert(ca.to_string(),
+            w.krill.ca_manager().get_ca(&h(ca)).map(|c| {
+                c.configured_roas().iter()
+                    .map(|r| r.roa_configuration.payload.to_string()).collect()
+            }).unwrap_or_default());
+    }
+    let files = w.publisher_files().into_iter()
+        .map(|(u, b)| (u, kvh::util::fnv(&b))).collect();
+    (roas, files)
+}
+
+/// One template world per call; `max_points` parked positions are tried
+/// (all of them in the thorough tier).
+fn directed_case(
+    r: &mut Report, args: &Args, case: u64, rng: &mut Rng,
+) -> Option<(String, String, Value)> {
+    use krill::server::mq::Task;
+    use krill::server::scheduler::verif_process_task;
+    let dir = args.work.join(format!("dir{case}"));
+    let tmpl = args.work.join(format!("dir{case}-tmpl"));
+    let _ = std::fs::remove_dir_all(&dir);
+    let _ = std::fs::remove_dir_all(&tmpl);
+    let cfg = WorldCfg::new(&dir);
+    {
+        let mut w = World::create(cfg.clone());
+        for (ca, asn, v4) in [("a", "AS65000-AS65010", "10.0.0.0/8"),
+                              ("b", "AS65011-AS65020", "11.0.0.0/8")] {
+            if let Err(e) = w.add_ca(ca, "ta", kvh::world::rs(asn, v4, "")) {
+                r.inconclusive(format!("directed setup: {e}"));
+                return None
+            }
+            w.quiesce();
+        }
+        for (ca, p) in [("a", "10.1.0.0/24 => 65000"), ("b", "11.1.0.0/24 => 65011"),
+                        ("a", "10.2.0.0/24 => 65001")] {
+            let _ = w.roas_update(ca, vec![kvh::world::roa(p)], vec![]);
+            w.quiesce();
+        }
+        w.sync_round();
+        drop(w);
+        kvh::util::copy_dir(&dir, &tmpl).ok()?;
+    }
+    let victims: [(&str, Task); 2] = [
+        ("update_snapshots", Task::UpdateSnapshots),
+        ("rrdp_update", Task::RrdpUpdateIfNeeded),
+    ];
+    let (vname, vtask) = victims[(case % 2) as usize].clone();
+    let run_one = |target: u64, r: &mut Report|
+        -> Result<(u64, Option<(String, String, Value)>), String>
+    {
+        let _ = std::fs::remove_dir_all(&dir);
+        kvh::util::copy_dir(&tmpl, &dir).map_err(|e| e.to_string())?;
+        let mut w = World::open_raw(cfg.clone());
+        // a change that is committed in the CA but not yet published, so
+        // that the intruder's repository synchronisation has work to do
+        let _ = w.roas_update(
+            "b", vec![kvh::world::roa("11.3.0.0/24 => 65012")], vec![]);
+        *DIRECTED.lock().unwrap() = Some(Directed {
+            victim: 1, target, count: 0, parked: false, released: false,
+            site: "",
+        });
+        let slow = w.slow.clone();
+        let started = w.started;
+        let vt = vtask.clone();
+        let victim = std::thread::spawn(move || {
+            TL_ID.with(|x| x.set(1));
+            kvh::util::catch(move || {
+                verif_process_task(&slow, vt, started).map(|_| ())
+                    .map_err(|e| e.to_string())
+            })
+        });
+        // wait until the victim is parked (or finished without reaching k)
+        let t0 = std::time::Instant::now();
+        let mut parked_at = "";
+        loop {
+            {
+                let g = DIRECTED.lock().unwrap();
+                if let Some(d) = g.as_ref() {
+                    if d.parked { parked_at = d.site; break }
+                }
+            }
+            if victim.is_finished() { break }
+            if t0.elapsed() > std::time::Duration::from_secs(20) { break }
+            std::thread::sleep(std::time::Duration::from_millis(2));
+        }
+        // the intruder: an API command and the repository synchronisations
+        let krill = w.krill.clone();
+        let slow2 = w.slow.clone();
+        let intruder = std::thread::spawn(move || {
+            TL_ID.with(|x| x.set(2));
+            kvh::util::catch(move || {
+                let actor = krill.system_actor().clone();
+                let add = krill.ca_manager().ca_routes_update(
+                    h("a"),
+                    krill::api::roa::RoaConfigurationUpdates {
+                        added: vec![kvh::world::roa("10.9.0.0/24 => 65002")],
+                        removed: vec![],
+                    }, &actor, &krill,
+                ).map_err(|e| e.to_string());
+                for ca in ["a", "b"] {
+                    let _ = verif_process_task(&slow2, Task::SyncRepo {
+                        ca_handle: h(ca), ca_version: 0,
+                    }, started);
+                }
+                let _ = verif_process_task(
+                    &slow2, Task::RrdpUpdateIfNeeded, started);
+                add
+            })
+        });
+        // give the intruder time to finish while the victim is parked; if it
+        // needs a lock the victim holds it finishes after the release
+        let t1 = std::time::Instant::now();
+        while !intruder.is_finished()
+            && t1.elapsed() < std::time::Duration::from_millis(1500)
+        {
+            std::thread::sleep(std::time::Duration::from_millis(5));
+        }
+        let overlapped = intruder.is_finished();
+        if let Some(d) = DIRECTED.lock().unwrap().as_mut() { d.released = true }
+        DIRECTED_CV.notify_all();
+        let vres = victim.join();
+        let ires = intruder.join();
+        let count = DIRECTED.lock().unwrap().as_ref().map(|d| d.count).unwrap_or(0);
+        *DIRECTED.lock().unwrap() = None;
+        let wit = json!({"victim": vname, "parked_after_yield_points": target,
+            "parked_at": parked_at, "intruder_ran_while_parked": overlapped});
+        match (&vres, &ires) {
+            (Ok(Ok(_)), Ok(Ok(add))) => {
+                if let Err(e) = add {
+                    return Ok((count, Some(("directed:valid-command-refused".into(),
+                        e.clone(), wit))))
+                }
+            }
+            _ => {
+                return Ok((count, Some(("directed:panic".into(),
+                    format!("victim {vres:?} intruder {ires:?}"), wit))))
+            }
+        }
+        if target == u64::MAX { drop(w); return Ok((count, None)) }
+        r.eval();
+        r.count("directed_preemptions", 1);
+        if overlapped { r.count("directed_intruder_ran_while_parked", 1) }
+        r.nontrivial(format!("directed|{vname}|{parked_at}|{overlapped}"));
+        // everything settles
+        let (_, ok) = w.quiesce();
+        if !ok {
+            r.inconclusive("directed: queue not idle");
+            return Ok((count, None))
+        }
+        let live = views(&w);
+        if !live.0["a"].iter().any(|x| x.starts_with("10.9.0.0/24")) {
+            return Ok((count, Some(("directed:acknowledged-command-lost".into(),
+                format!("a: {:?}", live.0["a"]), wit))))
+        }
+        drop(w);
+        // a second instance on the same directory shows the same
+        let w2 = World::open_raw(cfg.clone());
+        let fresh = views(&w2);
+        r.eval();
+        if fresh.0 != live.0 {
+            return Ok((count, Some((
+                "directed:configuration-differs-after-restart".into(),
+                format!("running {:?} restarted {:?}", live.0, fresh.0), wit))))
+        }
+        if fresh.1 != live.1 {
+            let diff: Vec<&String> = live.1.keys().chain(fresh.1.keys())
+                .filter(|u| live.1.get(*u) != fresh.1.get(*u)).take(6).collect();
+            return Ok((count, Some((
+                "directed:published-content-differs-after-restart".into(),
+                format!("the restarted publication server differs in {diff:?}"),
+                wit))))
+        }
+        if let Some(obs) = kvh::oracle::observe(&w2) {
+            let (issues, _) = kvh::oracle::c01_check(&w2, &obs);
+            r.eval();
+            if let Some((s2, d)) = issues.first() {
+                return Ok((count, Some((format!("directed:after-restart:{s2}"),
+                                        d.clone(), wit))))
+            }
+        }
+        drop(w2);
+        Ok((count, None))
+    };
+    // dry run: how many yield points does the victim pass?
+    let total = match run_one(u64::MAX, r) {
+        Ok((n, None)) => n,
+        Ok((_, Some(v))) => return Some(v),
+        Err(e) => { r.inconclusive(format!("directed dry run: {e}")); return None }
+    };
+    r.max("directed_yield_points_of_victim", total);
+    if total == 0 { return None }
+    let mut points: Vec<u64> = (1..=total).collect();
+    if !args.thorough() {
+        rng.shuffle(&mut points);
+        points.truncate(5);
+    }
+    for k in points {
+        if !r.within_budget() && !args.thorough() { break }
+        match run_one(k, r) {
+            Ok((_, Some(v))) => {
+                let _ = std::fs::remove_dir_all(&dir);
+                let _ = std::fs::remove_dir_all(&tmpl);
+                return Some(v)
+            }
+            Ok((_, None)) => {}
+            Err(e) => { r.inconclusive(format!("directed: {e}")); break }
+        }
+    }
+    let _ = std::fs::remove_dir_all(&dir);
+    let _ = std::fs::remove_dir_all(&tmpl);
+    None
+}
+
 fn main() {
     let args = Args::parse();
     let mut r = Report::new("C07", &args);
@@ -756,6 +1009,11 @@ fn main() {
         if !r.within_budget() { break }
         case += 1;
         if let Some((s, d, w)) = real_history(&mut r, &args, case, &mut rng) {
+            r.violation(&s, &d, w);
+        }
+        if !r.within_budget() { break }
+        case += 1;
+        if let Some((s, d, w)) = directed_case(&mut r, &args, case, &mut rng) {
             r.violation(&s, &d, w);
         }
         let _ = std::fs::write(args.work.join("partial.json"),
